@@ -196,6 +196,13 @@ def monOp (op : String) (args : List String) : Option String :=
       pure ((d, v), ts)) nq ts
     some (verdict (monClaim until_ cursor lps paid (if hasQ then some q else none)))
   | "mon_claim_rejected" => some "viol C06-claim-blocked"
+  | "mon_fault_outcome" => do
+    -- an injected internal failure that is reached must abort the transaction, except the refund of
+    -- a farm being closed (manual close, or automatic close when a farm is created)
+    let (hit, ts) ← pBit args
+    let (ok, ts) ← pBit ts
+    let (kind, _) ← pTok ts
+    some (if hit && ok && !(kind == "closefarm" || kind == "createfarm") then "viol C20-fault-swallowed" else "ok")
   | "mon_ss_quote" => do
     -- <pool> <offerDenom> <offer> <askDenom> <gross>
     let (p, ts) ← pPool args
